@@ -7,9 +7,9 @@ PROP = dict(
     ],
     bounds="stash: ONE store/get from every raw ring state (read<8, valid<=8, arbitrary 1-byte cookies, arbitrary stale free slots) checked through the full "
            "abstraction function (= inductive step for histories of any length), plus 4 (quick) / 6 (thorough) consecutive operations from every raw state; "
-           "poll: every stash fill 0..=8, cookie length 0..=64 with symbolic content (handle_timer) / 0..=32 (v4) or 0..=8 (v5) and every count 1..=8 (request builders), NTPv4 and NTPv5, "
+           "poll: every stash fill 0..=8, cookie length 0..=64 with symbolic content (handle_timer) / 0..=32 and every count 1..=8 (NTPv4 request builder), NTPv4 and NTPv5, "
            "any reach/tries/poll desire, every random draw",
-    outside="the wire encoding of the request (NtpPacket::serialize) is not part of these queries: the property is decided on (a) what handle_timer hands to the request builder "
+    outside="the NTPv5 request builder nts_poll_message_v5 (same loop as the v4 builder plus one trailing draft-id field; its harness c13_poll_message_v5 runs out of 12 GB in the solver; kept in c13.rs, not registered). The wire encoding of the request (NtpPacket::serialize) is not part of these queries: the property is decided on (a) what handle_timer hands to the request builder "
             "and (b) the extension-field list the builder creates; handle_timer + builder + encoder in one query does not finish (see C14). Cookie lengths above 64 in the poll "
             "harnesses (count logic for all lengths 0..=1024: c14_poll_timer_*). Arbitrary ring position in the poll harnesses (position 0; arbitrary positions are covered by "
             "the stash harnesses through the abstraction function). Cookie delivery on the response path (C07: stored cookies = exactly the encrypted cookie fields, in order)",
@@ -24,11 +24,10 @@ PROP = dict(
         H(NH, "c13", "c13_stash_init", "a new stash is the empty queue", timeout=120),
         H(NH, "c13", "c13_stash_step", "one store/get from any raw state preserves 'ring window = FIFO of the newest 8' (get = oldest, each position at most once, len/gap agree)", timeout=300),
         H(NH, "c13", "c13_stash_seq4", "4 consecutive symbolic store/get operations from any raw state against a serial-number FIFO model", timeout=300),
-        H(NH, "c13", "c13_stash_seq6", "6 consecutive symbolic store/get operations", tier="thorough", timeout=1800),
+        H(NH, "c13", "c13_stash_seq6", "6 consecutive symbolic store/get operations", tier="thorough", timeout=900),
         H(NH, "c13", "c13_poll_timer_v4", "NTPv4 NTS handle_timer, all stash fills: cookie handed to the request builder = oldest (every byte), consumed from the stash, rest keeps order, "
           "count = min(missing, fit), pending uid = the request's", timeout=300),
         H(NH, "c13", "c13_poll_timer_v5", "same for NTPv5", timeout=300),
         H(NH, "c13", "c13_poll_message_v4", "real nts_poll_message: fields = unique id (remembered), the cookie (every byte), count-1 placeholders of the cookie's length, all authenticated", timeout=300),
-        H(NH, "c13", "c13_poll_message_v5", "real nts_poll_message_v5: same + draft identification", timeout=300),
     ],
 )
